@@ -117,6 +117,39 @@ Theorem C02_history_valid_given_producers :
 Proof. exact history_valid. Qed.
 Print Assumptions C02_history_valid_given_producers.
 
+(** re-indexing a valid collection with any block size reproduces its stored indexes *)
+Theorem C02_reindex_valid : forall (c : cooler) (cs : Z),
+  ValidCSR c -> 0 <= nchroms c -> 1 <= cs ->
+  index_pixels_c cs (bin1 c) (nbins c) (nnz c) = Some (bin1_offset c) /\
+  index_pixels (bin1 c) (nbins c) (nnz c) = Some (bin1_offset c) /\
+  index_bins (bin_chrom c) (nchroms c) (nbins c) = Some (chrom_offset c).
+Proof. exact reindex_valid. Qed.
+Print Assumptions C02_reindex_valid.
+
+(** in a valid collection row b is exactly the position range [bin1_offset b, bin1_offset (b+1)) *)
+Theorem C02_valid_row_span : forall (c : cooler) (b : Z) (k : nat),
+  ValidCSR c -> (k < length (bin1 c))%nat -> 0 <= b < nbins c ->
+  (nth (Z.to_nat b) (bin1_offset c) 0 <= Z.of_nat k < nth (Z.to_nat (b + 1)) (bin1_offset c) 0
+   <-> nth k (bin1 c) 0 = b).
+Proof. exact ValidCSR_row_span. Qed.
+Print Assumptions C02_valid_row_span.
+
+(** the hypotheses are needed.  (1) sortedness for the index; (2) the range check for validity:
+    with the bounds check off (`cooler cload pairs`, known finding D2) create() stores a stream with a
+    bin id = nbins and the result is NOT a valid collection — the unguarded statement "every written
+    collection is valid" is false of the faithful model, C02_create_valid is the guarded one *)
+Theorem C02_index_pixels_unsorted_refuted :
+  exists a n, Forall (fun x => 0 <= x < n) a /\ index_pixels a n (zlen a) <> Some (offsets_of n a).
+Proof. exact index_pixels_unsorted_refuted. Qed.
+Print Assumptions C02_index_pixels_unsorted_refuted.
+
+Theorem C02_create_unchecked_refuted :
+  exists nc chroms px, 0 <= nc /\ NonDecr chroms /\ (forall x, In x chroms -> 0 <= x < nc) /\
+    SSorted px /\ (forall p, In p px -> row p <= col p) /\
+    exists c, create_model nc chroms px true = Some c /\ ~ ValidCSR c.
+Proof. exact create_unchecked_refuted. Qed.
+Print Assumptions C02_create_unchecked_refuted.
+
 (** ------------------------------------------------------------------ non-vacuity *)
 Example ex_C02_blocks_cross_runs :
   rlencode [0;0;1;1;1;3] (Some 2) = Some ([0;2;5], [2;3;1], [0;1;3]) /\
